@@ -80,3 +80,10 @@ pub fn ordered_set<T: Ord + Clone>(site: &'static str, s: &HashSet<T>) -> Ordere
     v.sort();
     OrderedSet(permute(site, v))
 }
+
+/// A list of (key, value) pairs copied out of a hash map, presented in a
+/// harness-chosen order (sorted by key by default).
+pub fn ordered_pairs<K: Ord, V>(site: &'static str, mut v: Vec<(K, V)>) -> Vec<(K, V)> {
+    v.sort_by(|a, b| a.0.cmp(&b.0));
+    permute(site, v)
+}
